@@ -344,6 +344,7 @@ type Net struct {
 	links     []*link
 	Conns     []*Conn // client ends, in creation order
 	listeners map[string]*Listener
+	muted     map[string]bool // listener addresses whose servers never answer
 	// Latency, when set, gives each written segment a not-before time.
 	Latency func() time.Duration
 	// FragChoices: byte counts offered when delivering (0 = whole segment).
@@ -363,6 +364,16 @@ func NewNet(sim *verifsim.Sim) *Net {
 	n := &Net{listeners: map[string]*Listener{}, sim: sim, FragChoices: defaultFrags, PlanFaults: map[int]map[string][]*linkFault{}}
 	sim.AddSource(n)
 	return n
+}
+
+// SilenceListener: every connection to that address reaches a server whose answers vanish.
+func (n *Net) SilenceListener(addr string) {
+	n.mu.Lock()
+	if n.muted == nil {
+		n.muted = map[string]bool{}
+	}
+	n.muted[addr] = true
+	n.mu.Unlock()
 }
 
 // AcceptTempErrors makes every listener fail its next k accepts with a temporary error (EMFILE-like) before
@@ -458,6 +469,16 @@ func (n *Net) Dial(ctx context.Context, addr string) (net.Conn, error) {
 		return nil, &net.OpError{Op: "dial", Net: "tcp", Err: syscall.ECONNREFUSED}
 	}
 	c, s := n.Pair(fmt.Sprintf("10.0.1.%d:%d", 1+id%250, 40000+id), addr)
+	n.mu.Lock()
+	mute := n.muted[addr]
+	n.mu.Unlock()
+	if mute {
+		// a server that takes requests and never answers: what it writes vanishes
+		c.in.mu.Lock()
+		c.in.silent = true
+		c.in.mu.Unlock()
+		n.sim.Fault("conn-to-silent-server")
+	}
 	l.mu.Lock()
 	l.queue = append(l.queue, s)
 	l.mu.Unlock()
